@@ -253,7 +253,10 @@ CLAIMED = {
             "seed/PIN/wipe only after answers establishing bootloader + echo + not onboarded and an operator yes; "
             "the seed messages carry exactly the generator's 32 bytes, indexed, once; unlock only for an onboarded "
             "bootloader; PIN policy unless any-PIN; public keys asked for the six documented paths and written "
-            "as the device returned them.",
+            "as the device returned them; the output files of `pubkeys -o` are part of the model (World.pubkeyFiles: "
+            "opened only after every key has been gathered) and observed on disk, with a link fault / timeout / error "
+            "status injected at every exchange of an export over an earlier one: each file is untouched or lists "
+            "the six documented paths (Spec.C18.filesOk).",
             "'when the preconditions hold the operation is carried out' is a theorem for onboarding on a Ledger "
             "(onboard_carried_out: exact message sequence - the random source's 32 seed bytes, the length-prefixed "
             "PIN, the wipe - and a normal end); for unlock / change-PIN / public keys, the change-PIN preconditions "
